@@ -283,6 +283,20 @@ func run(s *core.Shard) {
 			s.Nontrivial(c.Split.Key())
 		}
 	}
+	for i := 0; i < 50; i++ {
+		if !s.Mine(n + 132 + i) {
+			continue
+		}
+		if !s.Begin(fmt.Sprintf("port-key/%d", i)) {
+			continue
+		}
+		c := portKey(i)
+		if ok, _ := judge(s, c); ok {
+			s.Cover("carrier", c.Carrier)
+			s.Cover("focus", c.Focus)
+			s.Nontrivial(c.Split.Key())
+		}
+	}
 	for i := 0; i < 20; i++ {
 		if !s.Mine(n + 112 + i) {
 			continue
